@@ -101,7 +101,9 @@ func fanTerm(id uint64, in *FanInput, obs *FanObs) string {
 	if blocked < 0 {
 		blocked = 0
 	}
-	return Record("c_id", N(id), "c_body", App("Fan", N(uint64(in.Kind)), Nat(in.N), Bool(timeout), List(evs),
+	// unblindProposal's collector is told when every relay has given up
+	detect := in.Kind == kindUnblind
+	return Record("c_id", N(id), "c_body", App("Fan", N(uint64(in.Kind)), Nat(in.N), Bool(timeout), Bool(detect), List(evs),
 		Bool(obs.Returned), Bool(obs.OK), N(uint64(blocked))))
 }
 
